@@ -557,6 +557,13 @@ fn cert_roundtrip() -> String {
             certs.push(c);
         }
     }
+    // certificates whose signed message is NOT the digest of their protocol message (anything may come over the wire), standard and genesis
+    for src in [certs[0].clone(), chain.genesis_certificate().clone()] {
+        let mut c = src;
+        c.signed_message = "not-the-digest-of-the-protocol-message".to_string();
+        c.hash = c.try_compute_hash().unwrap();
+        certs.push(c);
+    }
     let mut bad = Vec::new();
     for (i, c) in certs.iter().enumerate() {
         let msg: CertificateMessage = match c.clone().try_into() { Ok(m) => m, Err(_) => { bad.push(format!("{}:to-message-failed", i)); continue; } };
